@@ -113,6 +113,7 @@ def check_tree(ctx):
         else:
             ctx.discharged += 1
     ctx.expect(paths, ret=8)
+    ctx.validate_paths(paths, 12)
     for sh in range(4):
         if (sh, True) not in kinds or (sh, False) not in kinds:
             ctx.inconclusive.append("shape %d: did not see both a normal and an exceptional ending (%s)" % (sh, sorted(kinds)))
@@ -143,5 +144,5 @@ def check_noop_tree(ctx):
 def jobs(tier, seed):
     return [Job("C19_noop_tree", '#include "C19_noop.inc"\n', [dict(name="noop two-sandbox nested tree", fn=check_noop_tree, unwind=400)], native=False,
                 flags=["-D_GLIBCXX_EXTERN_TEMPLATE=0"]),
-            Job("C19_tree", '#include "C19_tree.inc"\n', [dict(name="transition call trees", fn=check_tree, unwind=400)], native=False, max_paths=100000,
+            Job("C19_tree", '#include "C19_tree.inc"\n', [dict(name="transition call trees", fn=check_tree, unwind=400)], max_paths=100000,
                 flags=["-D_GLIBCXX_EXTERN_TEMPLATE=0"])]
